@@ -520,8 +520,8 @@ def ray_hfield(
   # map to local frame
   lpnt, lvec = _ray_map(pos, mat, pnt, vec)
 
-  # construct basis vectors of normal plane
-  b0, b1 = _orthogonal_basis(lvec)
+  # construct basis vectors of normal plane (_orthogonal_basis needs a unit vector)
+  b0, b1 = _orthogonal_basis(wp.normalize(lvec))
 
   # find ray segment intersecting top box
   seg = wp.vec2(0.0, top_intersect)
@@ -649,8 +649,8 @@ def ray_mesh(
 
   pnt, vec = _ray_map(pos, mat, pnt, vec)
 
-  # compute orthogonal basis vectors
-  b0, b1 = _orthogonal_basis(vec)
+  # compute orthogonal basis vectors (_orthogonal_basis needs a unit vector)
+  b0, b1 = _orthogonal_basis(wp.normalize(vec))
 
   x = float(-1.0)
   normal = wp.vec3()
